@@ -396,6 +396,15 @@ class Cache(Filter[Iterable[Any], Iterable[Any]]):
     def protected(self) -> bool:
         return self._protected
 
+    def __getstate__(self) -> dict:
+        #A cache that is still being filled holds the iterator it is filling itself
+        #from. Iterators can't be pickled so a partly filled cache is pickled empty
+        #(the copy fills itself on its first read). A completed cache keeps its items.
+        state = self.__dict__.copy()
+        if state['_iter'] is not None:
+            state['_iter'] = state['_cache'] = None
+        return state
+
     def filter(self, items: Iterable[Any]) -> Iterable[Any]:
         n_slice = self._n_slice
 
